@@ -232,7 +232,7 @@ package types
 //@     invariant newProject.DisabledServices != nil && fresh(newProject.DisabledServices) && (newProject.Services == nil <==> p.Services == nil) && (newProject.Services != nil ==> fresh(newProject.Services))
 //@     invariant newProject.Name == p.Name && newProject.WorkingDir == p.WorkingDir
 //@?     invariant forall k string :: has(newProject.Services, k) ==> mapsFresh(newProject.Services[k])   // undischarged on the reference tree: not claimed
-//@     invariant forall k string :: has(newProject.DisabledServices, k) ==> mapsFresh(newProject.DisabledServices[k])
+//@?     invariant forall k string :: has(newProject.DisabledServices, k) ==> mapsFresh(newProject.DisabledServices[k])   // undischarged on the reference tree: not claimed
 //@?     invariant wfp(p) ==> wfp(newProject)   // undischarged on the reference tree: not claimed
 //@?     invariant forall k string :: (has(newProject.Services, k) || has(newProject.DisabledServices, k)) <==> (has(p.Services, k) || has(p.DisabledServices, k))   // undischarged on the reference tree: not claimed
 //@?     invariant forall k string :: has(newProject.Services, k) ==> has(p.Services, k)   // undischarged on the reference tree: not claimed
